@@ -697,6 +697,37 @@ func c16R8(e *Engine) {
 					bad = "the loop over the members is left at " + e.ipos(ex.from.Instrs[len(ex.from.Instrs)-1]) + " with a result that is not an error"
 				}
 			}
+			// … and no result that is not an error is returned BEFORE the loop: a verdict reached from the left operand alone
+			// (missing attribute → FALSE) leaves every member unevaluated
+			var header *ssa.BasicBlock
+			for b := range body {
+				for _, p := range b.Preds {
+					if !body[p] {
+						header = b
+					}
+				}
+			}
+			if header != nil && bad == "" {
+				for _, r := range returnsOf(fn) {
+					if body[r.Block()] || header.Dominates(r.Block()) {
+						continue
+					}
+					v := strip(retVals(r)[0])
+					if strings.HasSuffix(typeName(v.Type()), "language.Error") {
+						continue
+					}
+					isErrRet := false
+					for _, cd := range condsAt(r.Block()) {
+						cd = normCond(cd)
+						if c, ok := cd.V.(*ssa.Call); ok && cd.Val && c.Call.StaticCallee() != nil && c.Call.StaticCallee().Name() == "isError" && len(c.Call.Args) == 1 && (strip(c.Call.Args[0]) == v || sameElemLoad(c.Call.Args[0], v)) {
+							isErrRet = true
+						}
+					}
+					if !isErrRet {
+						bad = "a result that is not an error is returned at " + e.ipos(r) + " before the members are evaluated"
+					}
+				}
+			}
 			if bad != "" {
 				e.fail("R8", construct, e.ipos(at), "%s: the members after that point are never evaluated, so a reserved word, an operator or an unknown function among them goes undetected whenever an earlier member decides the result", bad)
 			} else {
